@@ -679,8 +679,17 @@ fn define_extern_go(env: &mut PackageTypeEnv, diagnostics: &mut Diagnostics, ext
         ret_ty: Box::new(ret.clone()),
     };
     let go_name = go_symbol_name(&ext.go_symbol);
+    let goml_name = ext.goml_name.to_ident_name();
+    if env.current().value_env.funcs.contains_key(&goml_name) {
+        diagnostics.push(Diagnostic::new(
+            Stage::Typer,
+            Severity::Error,
+            format!("Function {} is already defined", goml_name),
+        ));
+        return;
+    }
     env.current_mut().register_extern_function(
-        ext.goml_name.to_ident_name(),
+        goml_name,
         ext.package_path.clone(),
         go_name,
         fn_ty,
